@@ -342,3 +342,57 @@ class Ctx(Recorder):
             print(f'VIOLATION property={self.pid} replay={rel}')
         sys.stdout.flush()
         return 1 if lines else 0
+
+
+def run_fuzz(ctx, pid, runs, seeds, max_len=256, label='fuzz', timeout=3600, tokens=()):
+    """Run the atheris target for `pid` twice in parallel - from an empty corpus and from `seeds` (list of bytes) - with
+    a fixed number of runs and a fixed libFuzzer seed; merge the execution counts; report a violation if one stopped."""
+    import re
+    import shutil
+    import subprocess
+    import tempfile
+    tmp = tempfile.mkdtemp(prefix='mido_fuzz_')
+    procs = []
+    try:
+        dict_path = os.path.join(tmp, 'tokens.dict')
+        with open(dict_path, 'w') as f:
+            for tok in tokens:
+                f.write('"' + ''.join(c if (32 <= ord(c) < 127 and c not in '"\\') else '\\x%02x' % ord(c) for c in tok) + '"\n')
+        for name, corpus in (('empty', []), ('seeded', seeds)):
+            cdir = os.path.join(tmp, name)
+            os.makedirs(cdir)
+            for i, b in enumerate(corpus):
+                with open(os.path.join(cdir, f'seed{i}'), 'wb') as f:
+                    f.write(bytes(b))
+            out = os.path.join(tmp, name + '.json')
+            cmd = [sys.executable, '-B', os.path.join(VERIF, 'fuzz', 'target.py'), pid, out, f'-runs={runs}',
+                   f'-seed={ctx.seed * 7919 + len(corpus) + 1}', f'-max_len={max_len}',
+                   f'-artifact_prefix={tmp}/', '-print_final_stats=1'] + ([f'-dict={dict_path}'] if tokens else []) + [cdir]
+            procs.append((name, out, subprocess.Popen(cmd, stdout=subprocess.PIPE, stderr=subprocess.STDOUT, text=True,
+                                                      cwd=VERIF)))
+        total = 0
+        for name, out, p in procs:
+            try:
+                text, _ = p.communicate(timeout=timeout)
+            except subprocess.TimeoutExpired:
+                p.kill()
+                text, _ = p.communicate()
+                ctx.notes.append(f'{label}/{name}: wall-clock budget reached (inconclusive, not a violation)')
+            m = re.findall(r'stat::number_of_executed_units:\s*(\d+)', text) or re.findall(r'Done (\d+) runs', text)
+            n = int(m[-1]) if m else 0
+            total += n
+            ctx.classes[f'{label}-{name}-executions'] += n
+            cov = re.findall(r'cov: (\d+)', text)
+            if cov:
+                ctx.extra[f'{label}_{name}_edges'] = int(cov[-1])
+            if os.path.exists(out):
+                data = json.load(open(out))
+                if 'harness_error' in data:
+                    raise HarnessError(f'fuzz target: {data["harness_error"]}')
+                ctx.note_violation(data['case'], data['failures'])
+            elif p.returncode not in (0, None) and 'Done' not in text and not m:
+                raise HarnessError(f'fuzz target {name} failed to run: {text[-800:]}')
+        ctx.evals += total
+        return total
+    finally:
+        shutil.rmtree(tmp, ignore_errors=True)
